@@ -78,7 +78,7 @@ func (e *Env) writeOutputs(proc, key string, outs map[string]string, ins map[str
 	sort.Strings(names)
 	if fault == "exit-before" {
 		vs.Event("F:" + key)
-		return &vs.ExitError{Code: 1}
+		return vs.RealExitError(1)
 	}
 	for i, port := range names {
 		data := []byte(contentOf(proc, port, ins, params))
@@ -92,9 +92,9 @@ func (e *Env) writeOutputs(proc, key string, outs map[string]string, ins map[str
 		if i == 0 && (fault == "exit-mid" || fault == "killed") {
 			vs.Event("F:" + key)
 			if fault == "killed" {
-				return errors.New("signal: killed")
+				return vs.RealExitError(-1)
 			}
-			return &vs.ExitError{Code: 1}
+			return vs.RealExitError(1)
 		}
 		if err := vs.FSWriteFile(outs[port], data, 0644); err != nil {
 			return err
@@ -102,7 +102,7 @@ func (e *Env) writeOutputs(proc, key string, outs map[string]string, ins map[str
 	}
 	if fault == "exit-after" {
 		vs.Event("F:" + key)
-		return &vs.ExitError{Code: 1}
+		return vs.RealExitError(1)
 	}
 	return nil
 }
@@ -133,6 +133,14 @@ func (e *Env) funcBody(ps *ProcSpec) func(t *sp.Task) {
 				sp.Failf("task %s cannot read its input %s: %v", key, path, err)
 			}
 			ins[port] = string(d)
+		}
+		if ps.WriteIdiom {
+			// docs: "task.OutIP("out").Write(data)" inside CustomExecute
+			for port, oip := range t.OutIPs {
+				oip.Write([]byte(contentOf(ps.Name, port, ins, t.Params)))
+			}
+			vs.Event("E:" + key)
+			return
 		}
 		outs := map[string]string{}
 		for port, oip := range t.OutIPs {
@@ -196,11 +204,11 @@ func (e *Env) simExec(name string, args []string) ([]byte, error, bool) {
 		switch f[0] {
 		case "cd":
 			if len(f) != 2 {
-				return []byte("cd: bad args"), &vs.ExitError{Code: 1}, true
+				return []byte("cd: bad args"), vs.RealExitError(1), true
 			}
 			nd := filepath.Join(cwd, f[1])
 			if fi, err := vs.FSStat(nd); err != nil || !fi.IsDir() {
-				return []byte("cd: no such directory " + nd), &vs.ExitError{Code: 1}, true
+				return []byte("cd: no such directory " + nd), vs.RealExitError(1), true
 			}
 			cwd = nd
 		case "vcmd":
@@ -209,7 +217,7 @@ func (e *Env) simExec(name string, args []string) ([]byte, error, bool) {
 			}
 		case "true":
 		case "false":
-			return nil, &vs.ExitError{Code: 1}, true
+			return nil, vs.RealExitError(1), true
 		default:
 			return nil, nil, false
 		}
